@@ -40,10 +40,16 @@ def resync_step(cx, type, k, active, L=0):
     cx.check(len(out) == 2 and out[0] is q[0], 'queue=Q+M')
     if len(out) == 2:
         cx.check(out[1] == m, 'M-equal')       # the real __eq__ (time 0 on both)
-    if type in REALTIME and was_sysex:
-        cx.check(cx.And(cx.eq(p._tok._status, pre_status), cx.eq(list(p._tok._bytes), pre)), 'post-state')
+    # The statement only speaks of the messages that come out.  The state afterwards merely has to be one
+    # from which the next message is recognised again, i.e. any state satisfying the representation invariant
+    # (for a real-time M: idle, or whatever it was before).
+    from .C04 import _inv
+    if type in REALTIME:
+        same = cx.And(cx.eq(p._tok._status, pre_status), cx.eq(list(p._tok._bytes), pre)) \
+            if len(p._tok._bytes) == len(pre) else False
+        cx.check(cx.Or(cx.eq(p._tok._status, 0), same), 'post-state')
     else:
-        cx.check(cx.eq(p._tok._status, 0), 'post-state')
+        cx.check(_inv(cx, p._tok), 'post-state')
 
 
 @harness(labels=['P+M', 'M-equal'])
